@@ -312,6 +312,8 @@ class CallMixin:
 
     def pdu_codec(self, recv, func, args, st, fx, node):
         cls = func.cls
+        if isinstance(recv, tuple) and recv[:1] == ("new",) and recv[1] in self.prog.classes:
+            cls = self.prog.classes[recv[1]]      # the object's own class (the method may be an inherited one)
         if func.name == "encode":
             for exc_cls in self.encode_raises(cls):
                 s2 = st.fork()
